@@ -85,6 +85,19 @@ type S struct { .A: i32, .B: i32, .N: In, .Arr: [3]i32, .Ns: [2]In };
 fn mk(k: i32) -> S { return { .A = k + 1, .B = k + 2, .N = { .U = k + 3, .V = k + 4 }, .Arr = [k + 5, k + 6, k + 7], .Ns = [{ .U = k + 8, .V = k + 9 }, { .U = k + 10, .V = k + 11 }] } as S; }
 """
 
+def is_cref(c): return c is not None and c[0] == "ref"
+def is_cplace(c): return c is not None and c[0] != "ref"
+def cond_val(c, store, refs):
+    """value (>= 0 test) of a place / reference condition in the reference interpreter"""
+    if is_cref(c): return sget(store, refs[c[1]])
+    return sget(store, (c[0], cpath(c[1])))
+def r_cond(prog, c, neg):
+    if c is None: return "cF" if neg else "cT"
+    if is_cref(c): return "%s%s(%s)" % ("!" if neg else "", "pM" if prog.rtypes[c[1]][1] else "pS", rname(c[1]))
+    return "%s %s 0" % (r_place(c), "<" if neg else ">=")
+COND_HELPERS = ("fn pS(a: &i32) -> bool { let t: i32 = a; return t >= 0; }\n"
+                "fn pM(a: &'i32) -> bool { let t: i32 = a; return t >= 0; }\n")
+
 def if_style(t):
     """how the else part of ('if', c, b1, b2, neg[, style]) is written: 'else' = `else { b2 }`, 'elif' = `else if ...` (b2 is
     exactly one if statement; the model keeps it as SIf c b1 [SIf ...]: the checker walks a nested *hir.IfStmt exactly like
@@ -166,7 +179,7 @@ def render_stmts(prog, ss, ind, out, sigs, cnt):
         elif k == "if":
             def emit_if(t, head):
                 c, b1, b2, neg = t[1], t[2], t[3], t[4]
-                cond = ("cF" if neg else "cT") if c is None else "%s %s 0" % (r_place(c), "<" if neg else ">=")
+                cond = r_cond(prog, c, neg)
                 out.append("%s %s {" % (head, cond)); render_stmts(prog, b1, ind + 1, out, sigs, cnt)
                 st = if_style(t)
                 if st == "elif": emit_if(b2[0], pad + "} else if")       # real else-if syntax: Else is a nested *hir.IfStmt
@@ -176,7 +189,7 @@ def render_stmts(prog, ss, ind, out, sigs, cnt):
             emit_if(s, pad + "if")
         elif k == "while":
             _, c, b, n = s
-            cond = "%s < 2" % vname(n) + ("" if c is None else " && %s >= 0" % r_place(c))
+            cond = "%s < 2" % vname(n) + ("" if c is None else " && " + r_cond(prog, c, False))
             out.append("%swhile %s {" % (pad, cond)); render_stmts(prog, b, ind + 1, out, sigs, cnt); out.append(pad + "}")
         elif k == "retbor":
             out.append("%sreturn %s%s;" % (pad, "&'" if s[1] else "&", r_place(s[2])))
@@ -204,7 +217,7 @@ def render_main(progs_named):
 
 def render_file(progs_named):
     sigs = set(); fns = [render_fn(p, n, sigs) for n, p in progs_named]
-    return HEADER + "".join(helper_src(s) for s in sorted(sigs)) + "".join(fns) + render_main(progs_named)
+    return HEADER + COND_HELPERS + "".join(helper_src(s) for s in sorted(sigs)) + "".join(fns) + render_main(progs_named)
 
 # ------------------------------------------------------------------ reference interpreter (write-through visibility)
 class Ret(Exception):
@@ -262,11 +275,11 @@ def interp(prog):
                                                      v[4][0][5], v[4][0][6], v[4][1][5], v[4][1][6]))
             elif k == "block": run(s[1])
             elif k == "if":
-                c = (not s[4]) if s[1] is None else ((sget(store, (s[1][0], cpath(s[1][1]))) < 0) if s[4] else (sget(store, (s[1][0], cpath(s[1][1]))) >= 0))
+                c = (not s[4]) if s[1] is None else ((cond_val(s[1], store, refs) < 0) if s[4] else (cond_val(s[1], store, refs) >= 0))
                 run(s[2] if c else s[3])
             elif k == "while":
                 it = 0
-                while store[s[3]] < 2 and (s[1] is None or sget(store, (s[1][0], cpath(s[1][1]))) >= 0):
+                while store[s[3]] < 2 and (s[1] is None or cond_val(s[1], store, refs) >= 0):
                     run(s[2]); it += 1
                     if it > 50: raise RuntimeError("loop")
             elif k == "retbor": raise Ret((s[2][0], cpath(s[2][1])))
@@ -284,7 +297,7 @@ def mentions(s):
     if k == "copy": return [s[2]]
     if k == "call": return [a[1] for a in s[1] if a[0] == "ref"]
     if k == "block": return [r for x in s[1] for r in mentions(x)]
-    if k == "if": return [r for x in s[2] + s[3] for r in mentions(x)]
+    if k == "if": return ([s[1][1]] if is_cref(s[1]) else []) + [r for x in s[2] + s[3] for r in mentions(x)]
     if k == "while": return [r for x in s[2] for r in mentions(x)]
     return []
 def decls_deep(s):
@@ -372,12 +385,12 @@ def oracle(prog, fine, value_params=(VV,)):
         elif k == "block":
             block(s[1], K - set(decls_deep(s)), G)
         elif k == "if":
-            if s[1] is not None: c_read(G, K | set(mentions(s)), s[1], txt)
+            if is_cplace(s[1]): c_read(G, K | set(mentions(s)), s[1], txt)
             block(s[2], K - set(x for y in s[2] for x in decls_deep(y)), G)
             block(s[3], K - set(x for y in s[3] for x in decls_deep(y)), G)
         elif k == "while":
             K2 = K | set(mentions(s))
-            if s[1] is not None: c_read(G, K2, s[1], txt)
+            if is_cplace(s[1]): c_read(G, K2, s[1], txt)
             block(s[2], K2 - set(decls_deep(s)), G)
         elif k == "retbor":
             c_borrow(G, K, s[2], s[1], txt)
@@ -600,6 +613,10 @@ def c_seg(g):
 def c_place(pl):
     return "(%d, [%s])" % (pl[0], "; ".join(c_seg(g) for g in pl[1]))
 def c_b(b): return "true" if b else "false"
+def c_cond(c):
+    if c is None: return "CNone"
+    if is_cref(c): return "(CRef %d)" % c[1]
+    return "(CPl %s)" % c_place(c)
 def c_stmt(s):
     k = s[0]
     if k == "var": return "SVar %d" % s[1]
@@ -617,8 +634,8 @@ def c_stmt(s):
             else: xs.append("ARef %d" % a[1])
         return "SCall [%s]" % "; ".join(xs)
     if k == "block": return "SBlock %s" % c_stmts(s[1])
-    if k == "if": return "SIf %s %s %s" % ("None" if s[1] is None else "(Some %s)" % c_place(s[1]), c_stmts(s[2]), c_stmts(s[3]))
-    if k == "while": return "SWhile %s %s" % ("None" if s[1] is None else "(Some %s)" % c_place(s[1]), c_stmts(s[2]))
+    if k == "if": return "SIf %s %s %s" % (c_cond(s[1]), c_stmts(s[2]), c_stmts(s[3]))
+    if k == "while": return "SWhile %s %s" % (c_cond(s[1]), c_stmts(s[2]))
     if k == "retbor": return "SRetBor %s %s" % (c_b(s[1]), c_place(s[2]))
     if k == "retref": return "SRetRef %d" % s[1]
     raise ValueError(k)
